@@ -21,7 +21,7 @@ def run(ck):
     codec.spec_socks_request_reader(ck, 'NoAuth')
     codec.spec_socks_response_reader(ck)
     codec.spec_socks_request_roundtrip(ck, 5)
-    codec.spec_socks_request_roundtrip(ck, 4, hostmax=24 if ck.tier == 'quick' else 300)
+    codec.spec_socks_request_roundtrip(ck, 4, hostmax=24 if ck.tier == 'quick' else 96)
     codec.spec_socks_response_roundtrip(ck, 5)
     codec.spec_socks_response_roundtrip(ck, 4)
     replies.spec_frame_channel_handover(ck)
